@@ -423,7 +423,8 @@ def report_rule_failures(ctx, t, fails):
             cls = "unlisted:%s:%s" % (f["rule"], ":".join(cell))
         by_class.setdefault(cls, []).append(f)
     n = 0
-    for cls, fs in sorted(by_class.items()):
+    # deviations that are not among the listed classes first
+    for cls, fs in sorted(by_class.items(), key=lambda kv: (not kv[0].startswith("unlisted:"), kv[0])):
         f = fs[0]
         cell = f["cell"]
         src = t.B.get(tuple(cell)) if len(cell) == 3 else t.U.get(tuple(cell)) if len(cell) == 2 else t.V.get((cell[0], tuple(cell[1:])))
@@ -433,7 +434,7 @@ def report_rule_failures(ctx, t, fails):
         n += 1 if ctx.violation({"class": cls, "rule": f["rule"], "input": {"operator": cell[0], "operand_kinds": list(cell[1:]), "mlr": cmd},
                                  "observed": obs, "expected": f["want"], "all_failing_cells_of_class": [x["cell"] for x in fs][:24],
                                  "theorem": "C08_" + f["rule"]}) else 0
-        if n >= 12:
+        if n >= 30:
             break
     return n
 
@@ -463,7 +464,7 @@ def run(ctx):
     ctx.sample({"cell": ["+", "absent", "int"], "observed": t.B[("+", "absent", "int")]["cls"], "examples": t.B[("+", "absent", "int")]["per"][:2]})
 
     forbidden_gate(ctx, ["C08"])
-    ok, why = check_props(ctx, "C08/Props.v", ["C08/TableProofs.vo", "C08/AssignProofs.vo", "C08/Harness.vo"])
+    ok, why = check_props(ctx, "C08/Props.v", ["C08/TableProofs.vo", "C08/AssignProofs.vo", "C08/Accumulate.vo", "C08/Harness.vo"])
 
     # ---- oracle on the implementation's own outputs: the rules of the property over the table
     fails = rule_failures(t)
